@@ -133,22 +133,22 @@ func (m *expirationMap[V]) cleanup(store store[V], policy *defaultPolicy[V], onE
 
 	for _, keys := range buckets {
 		for key, conflict := range keys {
-			expr := store.Expiration(key)
-			// Sanity check. Verify that the store agrees that this key is expired.
-			if expr.After(now) {
+			// Sanity check. Delete the key only if the store agrees that it is expired. The item
+			// could have been updated or deleted since the bucket was taken.
+			item, ok := store.DelExpired(key, conflict, now)
+			if !ok {
 				continue
 			}
 
 			cost := policy.Cost(key)
 			policy.Del(key)
-			_, value := store.Del(key, conflict)
 
 			if onEvict != nil {
 				onEvict(&Item[V]{Key: key,
-					Conflict:   conflict,
-					Value:      value,
+					Conflict:   item.conflict,
+					Value:      item.value,
 					Cost:       cost,
-					Expiration: expr,
+					Expiration: item.expiration,
 				})
 			}
 		}
